@@ -6,7 +6,7 @@ use nom::{
     branch::alt,
     bytes::complete::{tag, take_until},
     character::complete::{self, digit0, digit1},
-    combinator::{fail, map, opt, recognize},
+    combinator::{fail, map, map_opt, opt, recognize},
     error::ErrorKind,
     multi::{many0, many1, separated_list0},
     sequence::tuple,
@@ -840,7 +840,8 @@ fn parse_nth_child_args(text: &str) -> IResult<&str, SelectorComponent> {
         map(tag("even"), |_| (2, 0)),
         map(tag("odd"), |_| (2, 1)),
         // The case where both a and b are specified
-        map(
+        // (numbers which don't fit an i32 make the selector invalid)
+        map_opt(
             tuple((
                 opt_sign,
                 opt(digit1),
@@ -851,24 +852,24 @@ fn parse_nth_child_args(text: &str) -> IResult<&str, SelectorComponent> {
             )),
             |(a_sign, a_opt_val, _, _, b_sign, b_val)| {
                 let a =
-                    <i32 as FromStr>::from_str(a_opt_val.unwrap_or("1")).unwrap() * a_sign.val();
-                let b = <i32 as FromStr>::from_str(b_val).unwrap() * b_sign.val();
-                (a, b)
+                    <i32 as FromStr>::from_str(a_opt_val.unwrap_or("1")).ok()? * a_sign.val();
+                let b = <i32 as FromStr>::from_str(b_val).ok()? * b_sign.val();
+                Some((a, b))
             },
         ),
         // Just a
-        map(
+        map_opt(
             tuple((opt_sign, opt(digit1), tag("n"))),
             |(a_sign, a_opt_val, _)| {
                 let a =
-                    <i32 as FromStr>::from_str(a_opt_val.unwrap_or("1")).unwrap() * a_sign.val();
-                (a, 0)
+                    <i32 as FromStr>::from_str(a_opt_val.unwrap_or("1")).ok()? * a_sign.val();
+                Some((a, 0))
             },
         ),
         // Just b
-        map(tuple((opt_sign, digit1)), |(b_sign, b_val)| {
-            let b = <i32 as FromStr>::from_str(b_val).unwrap() * b_sign.val();
-            (0, b)
+        map_opt(tuple((opt_sign, digit1)), |(b_sign, b_val)| {
+            let b = <i32 as FromStr>::from_str(b_val).ok()? * b_sign.val();
+            Some((0, b))
         }),
     ))(rest)?;
 
